@@ -276,3 +276,6 @@ SUBCHECKS = [
     SubCheck("normalize_reject", lambda tier: _norm_cases(tier), check_normalize_reject, quick=600, thorough=3000,
              rule="non-trivial = as span, or an invalid vector (wrong length / one decreasing pair) offered to check and to an object setter"),
 ]
+
+# coverage-guided tier (thorough only): (sub-check, libFuzzer runs per process, processes)
+FUZZ = [("span", 40000, 2), ("basis", 20000, 2), ("ders", 20000, 2)]
